@@ -171,12 +171,12 @@ def workload(res):
     B.append(b"")
     B += [bytes([a]) for a in range(256)]
     B += [bytes([a, b]) for a in range(256) for b in (range(256) if thorough else rng.sample(range(256), 40))]
-    for _ in range(20000 if thorough else 3000):
+    for _ in range(200000 if thorough else 30000):
         n = rng.randint(3, 64)
         B.append(bytes(rng.choice([rng.randrange(256), rng.choice(b"'\"\\\n\t ab\x00\x7f\x80\xff")]) for _ in range(n)))
     S.append("")
-    step = 1 if thorough else 23
-    start = 0 if thorough else res.seed % 23
+    step = 1 if thorough else 5
+    start = 0 if thorough else res.seed % 5
     cps = [c for c in range(start, 0x110000, step) if not (0xD800 <= c <= 0xDFFF)]
     if not thorough:
         cps = sorted(set(cps) | set(range(0, 0x3000)) | set(BOUNDARY))
@@ -184,7 +184,7 @@ def workload(res):
     S += [a + chr(c) + b for c in BOUNDARY for a, b in (("a", ""), ("", "'"), ("\\", "\""))]
     S += [a + b for a in ALPHABET for b in ALPHABET]
     pool = ALPHABET + [chr(rng.randrange(0x20, 0x7f)) for _ in range(30)]
-    for _ in range(20000 if thorough else 3000):
+    for _ in range(200000 if thorough else 30000):
         n = rng.randint(1, 64)
         S.append("".join(rng.choice(pool) if rng.random() < .8 else chr(rng.choice([rng.randrange(0, 0xD800), rng.randrange(0xE000, 0x110000)])) for _ in range(n)))
     return B, S
@@ -204,7 +204,7 @@ def run(res):
     res.cover["byte_strings"] = len(B)
     res.cover["strings"] = len(S)
     res.rule = ("byte strings: all of length <= 1, length 2 (all in thorough, 40 second bytes per first byte in quick), random to 64; strings: single code points "
-                "(all in thorough; every 23rd plus all below U+3000 in quick), all pairs over a %d-symbol class alphabet, random to 64 chars; a case is one value, "
+                "(all in thorough; every 5th plus boundary code points and all below U+3000 in quick), all pairs over a %d-symbol class alphabet, random to 64 chars; a case is one value, "
                 "distinct by hash, non-trivial when non-empty; Python's repr is only demanded for values whose printable class is Unicode-version independent" % len(ALPHABET))
     res.assumptions = ["Python 3.11 repr / literal_eval as reference", "version independence decided by unicodedata.ucd_3_2_0 vs current table"]
 
